@@ -1,0 +1,19 @@
+//go:build verif
+
+// Verification hooks (read-only): compiled only with -tags verif.
+// Out-parameter forms of the module-internal package internal/x25519ell2: the caller
+// supplies (and may pre-fill or reuse) the output arrays, exactly as in-module callers do.
+
+package ntor
+
+import "gitlab.com/yawning/obfs4.git/internal/x25519ell2"
+
+// VerifScalarBaseMultInto calls x25519ell2.ScalarBaseMult(pub, repr, priv, tweak) on the caller's arrays.
+func VerifScalarBaseMultInto(pub, repr, priv *[32]byte, tweak byte) bool {
+	return x25519ell2.ScalarBaseMult(pub, repr, priv, tweak)
+}
+
+// VerifRepresentativeToPublicInto calls x25519ell2.RepresentativeToPublicKey(pub, repr) on the caller's arrays.
+func VerifRepresentativeToPublicInto(pub, repr *[32]byte) {
+	x25519ell2.RepresentativeToPublicKey(pub, repr)
+}
